@@ -27,6 +27,8 @@ import (
 
 var chk *mc.Check
 
+var hlDriverFailures int32 // number of driver (non-fill) scripts that failed HighLevelDecode
+
 var readerNotes int32 // number of failing reader cases listed in the evidence notes
 
 type shape struct {
@@ -254,6 +256,20 @@ func checkHighLevel(l *mc.Local, sh shape, tx text, pad int) bool {
 		l.Distinct("nontrivial", fmt.Sprint("hl/", sh, "/", tx.Name, "/", pad))
 		return true
 	}
+	switch {
+	case tx.Fam == "fill" && atomic.LoadInt32(&hlDriverFailures) > 0:
+		// the fill texts are mixtures of what the driver scripts exercise one by one: a failure is
+		// a consequence of the (already reported) driver failure, not a new cause
+		l.Count("fill text failures explained by a failing driver script", 1)
+		return false
+	case tx.Class != "main" && !hlControlsOK(l):
+		// plain binary shift fails as well: that is the cause, and it is reported on the main-class scripts
+		l.Count("non-main class failures explained by a failing plain binary shift", 1)
+		return false
+	}
+	if tx.Fam != "fill" {
+		atomic.AddInt32(&hlDriverFailures, 1)
+	}
 	key := "C11/highlevel/" + o.class(tx.Want) + "/" + textKeyPart(tx)
 	if tx.Class == "latin1" {
 		key = "C11/binary-latin1/highlevel/" + o.class(tx.Want)
@@ -261,6 +277,19 @@ func checkHighLevel(l *mc.Local, sh shape, tx text, pad int) bool {
 	chk.Violation(key, fmt.Sprintf("HighLevelDecode of script %s (%d bits + %d pad ones): %s, expected %q", tx.Name, len(tx.Bits), pad, o.describe(), clip(tx.Want, 60)),
 		rcase{Sub: "highlevel", Compact: sh.Compact, Layers: sh.Layers, Text: tx.Name, Pad: pad})
 	return false
+}
+
+// hlControlsOK: the main-class binary shifts in both length forms decode through HighLevelDecode.
+func hlControlsOK(l *mc.Local) bool {
+	for _, d := range drivers() {
+		switch d.Name {
+		case "bs/Upper/n1", "bs/Upper/n31", "bs/Upper/n32", "bs/Lower/n1", "bs/Lower/n32", "us/Lower", "us/Digit":
+			if o := libHighLevel(l, d.Bits); !o.ok(d.Want) {
+				return false
+			}
+		}
+	}
+	return true
 }
 
 // checkDecode: decoder.Decode on the (undamaged) matrix must give the text. A failure is
@@ -277,6 +306,13 @@ func checkDecode(l *mc.Local, sh shape, sym *az.Symbol, tx text) bool {
 	}
 	key := "C11/decode/" + o.class(tx.Want) + "/" + sh.cause()
 	if tx.Class != "main" {
+		// control: the smallest main-class text in the same shape. If that fails too, the cause is not
+		// the text class, and it is reported on the main-class texts of this shape.
+		ctl, _ := findText(sh, "tiny/A")
+		if !libDecode(l, encodeRef(sh, ctl).Matrix, sh, 1).ok(ctl.Want) {
+			l.Count("non-main class failures explained by a failing main-class control", 1)
+			return false
+		}
 		key = "C11/" + textKeyPart(tx) + "/decode/" + o.class(tx.Want)
 	}
 	chk.Violation(key, fmt.Sprintf("decoder.Decode of %v (%d data + %d check words of %d bits) holding script %s: %s, expected %q", sh, sym.DataWords, sym.CheckWords, sym.WordSize, tx.Name, o.describe(), clip(tx.Want, 60)),
@@ -343,4 +379,15 @@ func main() {
 		}
 	}
 	chk.Finish()
+}
+
+func encodeRef(sh shape, tx text) *az.Symbol {
+	sym, err := az.EncodeBits(tx.Bits, sh.Compact, sh.Layers)
+	if err != nil {
+		panic(fmt.Sprintf("C11 harness: reference encoder refused %v %s: %v", sh, tx.Name, err))
+	}
+	if sym.CheckWords < 3 {
+		panic(fmt.Sprintf("C11 harness: %v %s has only %d check words", sh, tx.Name, sym.CheckWords))
+	}
+	return sym
 }
